@@ -227,11 +227,12 @@ type rStore struct {
 	pods  map[string]*sPod
 	rgen  map[string]int
 	pgen  map[string]int
+	pns   map[string]string
 	rv    int
 }
 
 func newRStore() *rStore {
-	return &rStore{resvs: map[string]*sResv{}, pods: map[string]*sPod{}, rgen: map[string]int{}, pgen: map[string]int{}}
+	return &rStore{resvs: map[string]*sResv{}, pods: map[string]*sPod{}, rgen: map[string]int{}, pgen: map[string]int{}, pns: map[string]string{}}
 }
 
 type sChange struct {
@@ -341,6 +342,10 @@ func (s *rStore) apply(op *rOp) (ch []sChange, ok bool) {
 		if ns == "" {
 			ns = "default"
 		}
+		if prev, ok := s.pns[op.P]; ok {
+			ns = prev // a name that comes back is the same namespaced key
+		}
+		s.pns[op.P] = ns
 		p := &sPod{Name: op.P, NS: ns, Gen: s.pgen[op.P], Labels: op.Labels, Ctrl: op.Ctrl, Req: cpRL(op.Req), Phase: "Pending", Aff: op.Aff, rv: s.rv}
 		s.pods[p.Name] = p
 		return []sChange{{"pod", p.Name, p}}, true
@@ -1006,6 +1011,35 @@ func (resvEngine) Generate(p *sim.Plan, g *sim.Rng) {
 					}
 				}
 				add(op)
+			}
+		case x < 91:
+			// a pod is replaced by a namesake while the pod watch is broken (delete+add merged by the relist),
+			// the namesake possibly bound already
+			if pn := pickP(); pn != "" {
+				cur := st.pods[pn]
+				if cur == nil {
+					continue
+				}
+				add(rOp{K: "gap", T: "pod"})
+				add(rOp{K: "pod_delete", P: pn})
+				add(rOp{K: "pod_create", P: pn, NS: cur.NS, Labels: cur.Labels, Ctrl: cur.Ctrl, Req: genReq(g), Aff: cur.Aff})
+				if g.Bool(0.7) {
+					op := rOp{K: "pod_bind_ext", P: pn, N: g.Intn(cfg.Nodes)}
+					if cur.Node != "" {
+						fmt.Sscanf(cur.Node, "n%d", &op.N)
+					}
+					if r := pickR(); r != "" && g.Bool(0.5) {
+						if rr := st.resvs[r]; rr != nil && rr.Node != "" {
+							op.R = r
+							fmt.Sscanf(rr.Node, "n%d", &op.N)
+						}
+					}
+					add(op)
+				}
+				if g.Bool(0.3) {
+					add(rOp{K: "pod_phase", P: pn, Phase: []string{"Succeeded", "Failed"}[g.Intn(2)]})
+				}
+				add(rOp{K: "relist", T: "pod"})
 			}
 		case x < 93:
 			add(rOp{K: "gap", T: []string{"resv", "pod"}[g.Intn(2)]})
